@@ -848,7 +848,11 @@ impl Exec {
                 }
                 match model {
                     Ok(()) => {
-                        self.viol("C03", "header_stage_refuses_valid_header", format!("block #{b} (n={}) meets every header rule at clock {} but was refused: {e}", self.w.blocks[b].number, self.now));
+                        let d = format!("block #{b} (n={}) meets every header rule at clock {} but was refused: {e}", self.w.blocks[b].number, self.now);
+                        self.viol("C03", "header_stage_refuses_valid_header", d.clone());
+                        if e.contains("Pow") || e.contains("Nonce") {
+                            self.viol("C07", "pow_refuses_hash_within_target", d);
+                        }
                     }
                     Err(kind) => {
                         self.res.probes.inc(&format!("header_stage_refused:{kind}"));
@@ -860,7 +864,11 @@ impl Exec {
             Ok(()) => {
                 if let Err(kind) = model {
                     if matches!(kind, "pow" | "number" | "ts_too_old" | "ts_too_new") {
-                        self.viol("C03", &format!("header_stage_accepts_invalid_header:{kind}"), format!("block #{b} (n={}) breaks the header rule `{kind}` at clock {} but passed the header check", self.w.blocks[b].number, self.now));
+                        let d = format!("block #{b} (n={}) breaks the header rule `{kind}` at clock {} but passed the header check", self.w.blocks[b].number, self.now);
+                        self.viol("C03", &format!("header_stage_accepts_invalid_header:{kind}"), d.clone());
+                        if kind == "pow" {
+                            self.viol("C07", "pow_accepts_hash_above_target", d);
+                        }
                         return false;
                     }
                     self.res.probes.inc(&format!("header_stage_left_to_chain:{kind}"));
@@ -1184,7 +1192,10 @@ impl Exec {
                     self.viol("C01", &format!("invalid_chain_is_tip:{why_invalid}"), d.clone());
                     self.viol("C03", &format!("invalid_block_attached:{why_invalid}"), d.clone());
                     if prop != "C03" {
-                        self.viol(prop, &format!("invalid_block_attached:{why_invalid}"), d);
+                        self.viol(prop, &format!("invalid_block_attached:{why_invalid}"), d.clone());
+                    }
+                    if why_invalid.contains("pow") || why_invalid == "target" {
+                        self.viol("C07", &format!("invalid_block_attached:{why_invalid}"), d);
                     }
                 }
             }
@@ -1481,7 +1492,7 @@ impl Exec {
 
         // ---- C02 / C06 / C19: full comparison of the stored state and of every captured snapshot
         self.check_tip_consistency("final");
-        if self.sc.prop == "C07" {
+        if self.sc.prop == "C07" && !self.sc.header_stage {
             self.check_epochs();
         }
         if self.sc.prop == "C14" {
